@@ -67,6 +67,11 @@ CLAIMED = {
    "Documents: an include line + the default journal with <= 1 deviation (thorough <= 2) over 33 parameter groups (non-ASCII and non-BMP text in description, payee, account, comment, commodity; code; status; blanks; quoted commodities; tags after non-ASCII text; adjacent entries; directives) plus 18 listed pairs, with one included file on disk so that Locations in other files occur. For every cursor position of every line: hover, prepareRename, definition, references (with and without declaration), rename, completion, inlineCompletion; once per document: published diagnostics, documentSymbol, workspace/symbol (two queries), documentLink, foldingRange. Every Range found anywhere in a result is validated against the text of the document it refers to (line inside, character <= UTF-16 line length, start <= end, not inside a surrogate pair); a range reported for an account, commodity, payee, date, tag, amount, include path or entry must equal the UTF-16 span recorded when the element was rendered (and contain the cursor for cursor-driven features); folds and outline symbols must be pairwise disjoint or nested; completion ranges end at the cursor and start on its line at or before it.",
    "Whether a feature must answer at a position is not part of the property and is not checked. CodeAction/ExecuteCommand are not wired in the dispatcher. Violations already present with a proper subset of the deviations are charged to that subset.",
    "DESIGN.md §4.5, §5 C08"),
+ "C17": ("model_checking",
+   "deviation-bounded enumeration of journals for token geometry against the model's position map, plus explicit-state BFS over request histories with a client model that applies delta edits; differential oracle against a fresh server",
+   "Geometry: journals from G with <= 2 deviations over 25 parameter groups (code, quoted commodities, | with 0-2 blanks, @ @@ = ==, status, tags after non-ASCII text, several tags, every directive kind, CRLF ...) and all fragment pairs for the structural clauses: decoded tokens strictly increasing and non-overlapping, inside their line in UTF-16 units, type and modifiers inside the advertised legend; each token equals the rendered span of exactly one lexeme of its kind (code with parentheses, quoted commodity with quotes, operator on the operator, tag on name:) and every lexeme of a mapped kind has a token; range(i, j) for every line interval equals the full result restricted to those lines. Histories: BFS to depth 4 (6 thorough) over 23 operations on two documents with three texts (one empty), full / delta with current, superseded, never-issued and empty result id / range / close / reopen, and a second server sharing the process-global cache; the array the client model rebuilds from delta edits must equal the full result of a fresh server for the current text.",
+   "Client model: holds the array of its latest result id only; a response without result id makes it forget all ids (clients that keep using an id afterwards are outside the property). State key = texts, client arrays, shape of the token cache (ids abstracted).",
+   "DESIGN.md §5 C17"),
 }
 
 NOT_YET = "check not built yet in this session (work in progress; see DESIGN.md §5 for the plan)"
